@@ -11,47 +11,52 @@ OPS = {
 }
 
 
-def tie(n, tag):
+def tie(n, tag, name=None, lk=None, consts="", same=False):
+    name = name or f"tuple{n}"
+    lk = lk or f".numbered {n}"
     o = OPS[tag]
     conv, view = ("anyOfGen", "anyView ") if o["any"] else ("resOfGen", "")
     rty = "Except Traversal Unit" if o["any"] else "Except (Error Unit) Nat"
     cty = f"Tree → KeySrc → {rty} × Tree" if o["mut"] else f"Tree → KeySrc → {rty}"
-    cs = " ".join(f"c{i}" for i in range(n))
-    node = f"(.node false none (.numbered {n}) (plainFields elems))"
+    cs = "c0" if same else " ".join(f"c{i}" for i in range(n))
+    ci = (lambda i: 0) if same else (lambda i: i)
+    nch = 1 if same else n
+    node = f"(.node false none ({lk}) (plainFields elems))"
     walk = lambda t: f"(Tree.walk io {o['op']} {t} ks)"
     if o["mut"]:
         hyps = " ".join(f"(h{i} : ∀ t ks, {conv} (c{i} t ks).1 = {view}(t.walk io {o['op']} ks).res ∧ (c{i} t ks).2 = (t.walk io {o['op']} ks).tree)"
-                        for i in range(n))
-        concl = (f"∃ es r, Impls.tuple{n}.{o['fn']} keysNextM {cs} elems ks = .val (es, r) ∧\n"
+                        for i in range(nch))
+        concl = (f"∃ es r, Impls.{name}.{o['fn']} keysNextM {cs} elems ks = .val (es, r) ∧\n"
                  f"      {conv} r = {view}{walk(node)}.res ∧\n"
-                 f"      Tree.node false none (.numbered {n}) (plainFields es) = {walk(node)}.tree")
+                 f"      Tree.node false none ({lk}) (plainFields es) = {walk(node)}.tree")
         err = "exact ⟨_, _, rfl, by simp [resOfGen, anyOfGen, anyView, travToGen, travOfGen], rfl⟩"
         apply = "applyAt"
     else:
-        hyps = " ".join(f"(h{i} : ∀ t ks, {conv} (c{i} t ks) = {view}(t.walk io {o['op']} ks).res)" for i in range(n))
-        concl = (f"∃ r, Impls.tuple{n}.{o['fn']} keysNextM {cs} elems ks = .val r ∧\n"
+        hyps = " ".join(f"(h{i} : ∀ t ks, {conv} (c{i} t ks) = {view}(t.walk io {o['op']} ks).res)" for i in range(nch))
+        concl = (f"∃ r, Impls.{name}.{o['fn']} keysNextM {cs} elems ks = .val r ∧\n"
                  f"      {conv} r = {view}{walk(node)}.res")
         err = "exact ⟨_, rfl, by simp [resOfGen, anyOfGen, anyView, travToGen, travOfGen]⟩"
         apply = "applyAtR"
 
     def arm(i):
+        j = ci(i)
         if o["any"]:
-            hi = f"(h{i} _ _).1" if o["mut"] else f"h{i}"
-            val = f"(c{i} elems[{i}] ks').1" if o["mut"] else f"c{i} elems[{i}] ks'"
+            hi = f"(h{j} _ _).1" if o["mut"] else f"h{j}"
+            val = f"(c{j} elems[{i}] ks').1" if o["mut"] else f"c{j} elems[{i}] ks'"
             fin = (f"      rw [anyView_incr, ← {hi}]\n"
                    f"      cases {val} with\n"
                    f"      | ok u => cases u; rfl\n"
                    f"      | error e => simp [anyOfGen, Except.mapError, increment_tie]")
             if o["mut"]:
                 return (f"    · simp only [{apply}, hget, goFld_plain io {o['op']} elems _ ks' _ hget]\n"
-                        f"      refine ⟨_, _, rfl, ?_, by rw [(h{i} _ _).2]⟩\n{fin}")
+                        f"      refine ⟨_, _, rfl, ?_, by rw [(h{j} _ _).2]⟩\n{fin}")
             return (f"    · simp only [{apply}, hget, goFld_plain io {o['op']} elems _ ks' _ hget]\n"
                     f"      refine ⟨_, rfl, ?_⟩\n{fin}")
         if o["mut"]:
             return (f"    · simp only [{apply}, hget, goFld_plain io {o['op']} elems _ ks' _ hget]\n"
-                    f"      exact ⟨_, _, rfl, by rw [resOfGen_incr, (h{i} _ _).1], by rw [(h{i} _ _).2]⟩")
+                    f"      exact ⟨_, _, rfl, by rw [resOfGen_incr, (h{j} _ _).1], by rw [(h{j} _ _).2]⟩")
         return (f"    · simp only [{apply}, hget, goFld_plain io {o['op']} elems _ ks' _ hget]\n"
-                f"      exact ⟨_, rfl, by rw [resOfGen_incr, h{i}]⟩")
+                f"      exact ⟨_, rfl, by rw [resOfGen_incr, h{j}]⟩")
     if n == 1:
         split = "    obtain rfl : i = 0 := by omega"
         arms = arm(0).replace("    · simp only", "    simp only", 1).replace("\n      ", "\n    ")
@@ -60,14 +65,14 @@ def tie(n, tag):
                  f"    rcases hi' with {' | '.join('rfl' for _ in range(n))}")
         arms = "\n".join(arm(i) for i in range(n))
     return f'''
-theorem tuple{n}_{tag}_tie (io : Io) (elems : List Tree) (hlen : elems.length = {n}) (ks : KeySrc)
-    (hnp : ∀ s, ks.next (.numbered {n}) ≠ .error (.panic s))
+theorem {name}_{tag}_tie (io : Io) (elems : List Tree) (hlen : elems.length = {n}) (ks : KeySrc)
+    (hnp : ∀ s, ks.next ({lk}) ≠ .error (.panic s))
     ({cs} : {cty})
     {hyps} :
     {concl} := by
-  simp only [Impls.tuple{n}.{o['fn']}, Impls.KeyLookup.numbered, nonZeroNew, keysNextM, lookupOfGen, Tree.walk]
+  simp only [Impls.{name}.{o['fn']}, {consts}Impls.KeyLookup.numbered, nonZeroNew, keysNextM, lookupOfGen, Tree.walk]
   try simp +decide only [↓reduceIte]
-  cases hnext : ks.next (.numbered {n}) with
+  cases hnext : ks.next ({lk}) with
   | error e =>
     cases e with
     | panic s => exact absurd hnext (hnp s)
@@ -75,7 +80,7 @@ theorem tuple{n}_{tag}_tie (io : Io) (elems : List Tree) (hlen : elems.length = 
   | ok p =>
     obtain ⟨i, ks'⟩ := p
     have hi := next_lt ks _ i ks' hnext
-    simp only [Lookup.len] at hi
+    simp only [Lookup.len, List.length_cons, List.length_nil] at hi
     have hget : elems[i]? = some elems[i] := List.getElem?_eq_getElem (by omega)
 {split}
 {arms}
@@ -86,7 +91,8 @@ out = ['''import MiniconfVerif.Lemmas.GenTieValue
 
 /-! GENERATED ONCE by tools/mk_tuple_value_ties.py (committed): `Tree.walk` at a tuple (a `numbered n` node whose fields
 carry no attributes) agrees with `TreeSerialize` / `TreeDeserialize` / `TreeAny` of the n-tuples as translated from the
-`impl_tuple!` body of impls.rs, for n = 1..8. -/
+`impl_tuple!` body of impls.rs, for n = 1..8, and of `Range`, `RangeFrom`, `RangeTo` (and `TreeSerialize` of
+`RangeInclusive`) at their `named ["start", "end"]` / `["start"]` / `["end"]` nodes. -/
 set_option linter.unusedSimpArgs false
 namespace MiniconfVerif.GenTie
 open MiniconfVerif MiniconfVerif.Gen MiniconfVerif.Gen.Core
@@ -96,6 +102,14 @@ for n in range(1, 9):
     for tag in OPS:
         out.append(tie(n, tag))
         names.append(f"tuple{n}_{tag}_tie")
+for rust, lkn, n_, consts in (("Range", '.named ["start", "end"]', 2, "Impls.RANGE_LOOKUP, "),
+                              ("RangeFrom", '.named ["start"]', 1, "Impls.RANGE_FROM_LOOKUP, "),
+                              ("RangeTo", '.named ["end"]', 1, "Impls.RANGE_TO_LOOKUP, ")):
+    for tag in OPS:
+        out.append(tie(n_, tag, name=rust, lk=lkn, consts=consts, same=True))
+        names.append(f"{rust}_{tag}_tie")
+out.append(tie(2, "ser", name="RangeInclusive", lk='.named ["start", "end"]', consts="Impls.RANGE_LOOKUP, ", same=True))
+names.append("RangeInclusive_ser_tie")
 out.append('''
 /-- all tuple value-level ties as one statement -/
 def TupleValueTies : Prop :=
